@@ -233,7 +233,7 @@ PROPS = {
     "C03": dict(pool_prop([], ["size bound: minSize <= maxSize and no Shutdown report for a current pool member (RunOk; known finding K6 outside, kernel-checked witness size_bound_needs_contract)"]),
                 theorems=pool_thms(["growth_only_when_saturated", "at_max_places_anyway", "below_watermark_places"]) +
                 [("GcpVerif.Proofs.PoolSlots", "GcpVerif.Pool." + n) for n in ["size_bounded", "slots_bijective", "pool1_run", "size_bound_needs_contract"]] +
-                [("GcpVerif.Proofs.PoolInitial", "GcpVerif.Pool." + n) for n in ["initial_size", "pristine_run", "enforce_len"]] +
+                [("GcpVerif.Proofs.PoolInitial", "GcpVerif.Pool." + n) for n in ["initial_size", "initial_size_nonempty", "bare_run", "pristine_run", "enforce_len"]] +
                 [("GcpVerif.Proofs.PoolHold", "GcpVerif.Pool.pick_eq_hold_resume")] +
                 [("GcpVerif.Proofs.PoolLoad", "GcpVerif.Pool.growth_needs_real_load"), ("GcpVerif.Proofs.PoolLoad", "GcpVerif.Pool.streamsOf_eq_inflight")]),
     "C04": dict(pool_prop([]), theorems=[("GcpVerif.Proofs.PoolPublish", "GcpVerif.Pool." + n) for n in
